@@ -125,6 +125,56 @@ def spec_Q(states, params, weight, pi):
     return Q / scale, w
 
 
+def spec_general_stationary(states, params, pi):
+    """GeneralStationary as its docstring defines it: one free parameter ``x>y`` for every instantaneous change except
+    the last (lowest) one in each column; exactly one further cell is the reference (1.0); the last cell of each column
+    is whatever makes pi stationary:  sum_i pi_i R_ij pi_j = pi_j sum_k R_jk pi_k  for every j.
+    Solved here as one linear system (the code fills the cells one after the other).
+    -> None when the parameter names do not fit that description, else (Q calibrated, w, smallest dependent cell)"""
+    n = len(states)
+    w = numpy.array(pi, float)
+    idx = {s: i for i, s in enumerate(states)}
+    inst = [[i != j and single_diff(states[i], states[j]) is not None for j in range(n)] for i in range(n)]
+    R = numpy.zeros((n, n))
+    named = set()
+    for name, val in params.items():
+        if ">" not in name:
+            return None
+        x, y = name.split(">")
+        if x not in idx or y not in idx or not inst[idx[x]][idx[y]]:
+            return None
+        R[idx[x], idx[y]] = val
+        named.add((idx[x], idx[y]))
+    dep = []
+    for j in range(n):
+        rows = [i for i in range(n) if inst[i][j]]
+        if rows and rows[-1] > j:
+            dep.append((rows[-1], j))
+    if set(dep) & named:
+        return None
+    ref = [(i, j) for i in range(n) for j in range(n) if inst[i][j] and (i, j) not in named and (i, j) not in dep]
+    if len(ref) != 1:
+        return None
+    R[ref[0]] = 1.0
+    # unknown x_c = R[dep_c]; equation j:  sum_i pi_i R_ij - sum_k pi_k R_jk = 0
+    A = numpy.zeros((n, len(dep)))
+    b = numpy.zeros(n)
+    for j in range(n):
+        b[j] = -(w @ R[:, j] - R[j] @ w)
+    for c, (i, j) in enumerate(dep):
+        A[j, c] += w[i]          # column j gains pi_i x_c
+        A[i, c] -= w[j]          # row i gains pi_j x_c
+    x, *_ = numpy.linalg.lstsq(A, b, rcond=None)
+    if abs(A @ x - b).max() > 1e-10 * max(1.0, abs(b).max()):
+        return None
+    for c, cell in enumerate(dep):
+        R[cell] = x[c]
+    Q = R * w
+    numpy.fill_diagonal(Q, 0.0)
+    Q -= numpy.diag(Q.sum(axis=1))
+    return Q / -(w * numpy.diag(Q)).sum(), w, float(x.min()) if len(dep) else 1.0
+
+
 def spec_Q_from_exchangeabilities(S, pi):
     """empirical models: Q_ij = S_ij pi_j, calibrated"""
     w = numpy.array(pi, float)
